@@ -1,3 +1,537 @@
-"""stub (being written)"""
+"""C01 generator: TYPE-DIRECTED Quiver programs aimed at the compiler's typing rules.
+
+A program is a list of SCENARIOS sharing one preamble of type aliases.  Each scenario picks types
+at random (goal type -> term, the core-language terms come from vplib/props/c02gen.py's `Gen`),
+defines one or more functions whose bodies depend on what the compiler must have inferred
+(narrowing by branch order, complement narrowing, partial types, generics, recursive aliases,
+tail calls, closures, spreads, pins, or-/as-patterns, spawn/send/select typing) and adds
+observations; the program's value is the tuple of all observations, so that the extracted Coq
+judgement decides `value : inferred type` for every one of them.  Non-generic functions are also
+returned BY REFERENCE in the tuple: the check applies them to inputs enumerated from their
+INFERRED parameter type.
+
+About a third of the programs carry one ILL-TYPED PROBE: an argument / field / message of a type
+the context does not admit (another variant, another scalar, nil).  The compiler must reject
+those; when it accepts one and the run goes wrong, that is an unsoundness (the known ones are
+F1 tail-call argument, F2 union argument to a generic non-union parameter, F13 nil through a later
+type test, F27 nil binder, F53 stale narrowing after rebinding, F54 provenance of a match result).
+
+`generate(rng, stats)` -> dict(src, feats, probe)."""
+from vplib.props import c02gen
+from vplib.props.c02gen import INT, BIN, STR, tup, ty_src
+
+NAMES = ["A", "B", "C", "D", "P", "Q", "Box", "Pt", "Leaf", "Node"]
+LABELS = ["x", "y", "z", "k", "w", "v"]
+
+
+class G:
+    def __init__(self, rng, stats):
+        self.rng = rng
+        self.stats = stats
+        self.core = c02gen.Gen(rng, {})
+        self.core.budget = 30
+        self.n = 0
+        self.aliases = []        # preamble lines
+        self.steps = []          # definitions
+        self.obs = []            # observation chains
+        self.feats = set()
+        self.probe = None
+
+    def fresh(self, p):
+        self.n += 1
+        return "%s%d" % (p, self.n)
+
+    def feat(self, *ks):
+        for k in ks:
+            self.feats.add(k)
+            self.stats[k] = self.stats.get(k, 0) + 1
+
+    def chance(self, p):
+        return self.rng.random() < p
+
+    # ------------------------------------------------------------------ types and terms
+    def scalar(self):
+        return self.rng.choice([INT, INT, BIN, STR])
+
+    def small_type(self, depth=0):
+        r = self.rng.random()
+        if r < 0.55 or depth > 1:
+            return self.scalar()
+        n = self.rng.randint(1, 3)
+        labelled = self.chance(0.5)
+        labels = self.rng.sample(LABELS, n) if labelled else [None] * n
+        return tup(self.rng.choice(NAMES[:7] + [None, None]), [(l, self.small_type(depth + 1)) for l in labels])
+
+    def term(self, t, env=None):
+        """a well-typed chain of type t (core generator; fresh budget per call)"""
+        self.core.budget = self.rng.choice([1, 3, 6, 12])
+        self.core.param = None
+        s = self.core.expr(t, list(env or []), None, 1)
+        return s
+
+    def lit(self, t):
+        return self.core.lit(t)
+
+    def other_type(self, t):
+        """a type different from t (for ill-typed probes)"""
+        for _ in range(8):
+            u = self.rng.choice([INT, BIN, STR, "nil", tup(None, [(None, INT)]), tup("Zz", [])])
+            if u != t:
+                return u
+        return "nil"
+
+    def wrong(self, t):
+        """a term of a type other than t"""
+        u = self.other_type(t)
+        return "[]" if u == "nil" else self.lit(u)
+
+    def int_op(self, a, b=None):
+        op = self.rng.choice(["add", "subtract", "multiply"])
+        return "[%s, %s] __integer_%s__" % (a, b if b is not None else self.rng.randint(0, 9), op)
+
+    def use(self, t, v):
+        """an int-valued chain that USES value expression v at type t (a wrong static type makes
+        the run fail or the compiler reject)"""
+        if t == INT:
+            return self.int_op(v)
+        if t == BIN:
+            return "%s __binary_length__" % v
+        if t == STR:
+            return "%s .0 __binary_length__" % v
+        if t[0] == "tup" and t[2]:
+            i = self.rng.randrange(len(t[2]))
+            l, ft = t[2][i]
+            acc = "%s .%s" % (v, l if l and self.chance(0.7) else str(i))
+            return self.use(ft, acc) if ft in (INT, BIN, STR) else "%s =c01u, 1" % acc
+        return "%s =c01u, 2" % v
+
+    # ------------------------------------------------------------------ scenarios
+    def sc_union_dispatch(self):
+        """a union alias of named variants; a function narrowing it branch by branch; the last
+        branch relies on complement narrowing"""
+        r = self.rng
+        name = self.fresh("u")
+        vs = []
+        for nm in r.sample(NAMES, r.randint(2, 4)):
+            k = r.randint(0, 2)
+            labelled = self.chance(0.6)
+            labels = r.sample(LABELS, k) if labelled else [None] * k
+            vs.append(tup(nm, [(l, self.scalar()) for l in labels]))
+        self.aliases.append("'%s = %s" % (name, " | ".join(ty_src(v) for v in vs)))
+        f = self.fresh("f")
+        order = list(vs)
+        r.shuffle(order)
+        branches = []
+        for v in order[:-1]:
+            pat, body = self.variant_branch(v)
+            branches.append("=%s => %s" % (pat, body))
+        last = order[-1]
+        form = r.random()
+        if form < 0.35:
+            branches.append(str(r.randint(0, 99)))                       # default
+        elif form < 0.7:
+            pat, body = self.variant_branch(last)
+            branches.append("=%s => %s" % (pat, body))
+        else:
+            # complement narrowing: only `last` remains, its fields are accessible on `~`
+            if last[2]:
+                i = r.randrange(len(last[2]))
+                l, ft = last[2][i]
+                branches.append(self.use(ft, "~.%s" % (l if l else i)))
+                self.feat("complement_narrowing")
+            else:
+                branches.append("~ =%s, 5" % last[1])
+                self.feat("complement_narrowing")
+        self.steps.append("%s = #'%s { | %s }" % (f, name, " | ".join(branches)))
+        self.feat("unions", "narrowing_by_branch_order")
+        for v in r.sample(vs, min(len(vs), 2)):
+            self.obs.append("%s %s" % (self.lit(v), f))
+        self.obs.append("&" + f)
+        if self.want_probe():
+            self.obs.append("%s %s" % (self.lit(tup("Zz", [(None, INT)])), f))
+            self.set_probe("non-member-to-union-param")
+        return f, ("alias", name), vs
+
+    def variant_branch(self, v):
+        r = self.rng
+        if not v[2]:
+            return v[1], str(r.randint(0, 50))
+        k = r.randrange(len(v[2]))
+        parts, body = [], None
+        for i, (l, ft) in enumerate(v[2]):
+            if i == k:
+                x = self.fresh("b")
+                parts.append((l + ": " if l else "") + x)
+                body = self.use(ft, x)
+            else:
+                parts.append((l + ": " if l else "") + "_")
+        return "%s[%s]" % (v[1], ", ".join(parts)), body
+
+    def sc_scalar_tests(self):
+        """type tests over a union of scalars and nil, in random order (F13 lives here)"""
+        r = self.rng
+        members = r.sample([INT, BIN, "nil", STR], r.randint(2, 4))
+        f = self.fresh("t")
+        order = list(members)
+        r.shuffle(order)
+        branches = []
+        for m in order[:-1] if self.chance(0.6) else order:
+            if m == "nil":
+                branches.append("=[] => %d" % r.randint(0, 9))
+            elif self.chance(0.3):
+                x = self.fresh("a")
+                branches.append("=(%s)%s => %s" % (ty_src(m), x, self.use(m, x)))
+                self.feat("as_patterns")
+            else:
+                branches.append("=%s => %s" % (ty_src(m), self.use(m, "~")))
+        if len(branches) < len(order):
+            last = order[-1]
+            branches.append("0" if last == "nil" or self.chance(0.4) else self.use(last, "~"))
+            self.feat("complement_narrowing")
+        self.steps.append("%s = #(%s) { | %s }" % (f, " | ".join(ty_src(m) for m in members), " | ".join(branches)))
+        self.feat("unions", "type_tests", "narrowing_by_branch_order")
+        for m in r.sample(members, min(2, len(members))):
+            self.obs.append("%s %s" % ("[]" if m == "nil" else self.lit(m), f))
+        self.obs.append("&" + f)
+
+    def sc_partial(self):
+        r = self.rng
+        k = r.randint(1, 2)
+        labels = r.sample(LABELS, k)
+        ftypes = [self.scalar() for _ in labels]
+        nm = r.choice([None, None, "P", "Q"])
+        f = self.fresh("p")
+        body_i = r.randrange(k)
+        head = "%s(%s)" % (nm or "", ", ".join("%s: %s" % (l, ty_src(t)) for l, t in zip(labels, ftypes)))
+        if self.chance(0.5):
+            body = self.use(ftypes[body_i], "$.%s" % labels[body_i])
+        else:
+            binds = ", ".join(labels)
+            body = "=%s(%s) => %s" % (nm or "", binds, self.use(ftypes[body_i], labels[body_i]))
+            self.feat("partial_patterns")
+        self.steps.append("%s = #%s { %s }" % (f, head, body))
+        self.feat("partials")
+        extra = [l for l in LABELS if l not in labels]
+        for _ in range(2):
+            fields = [(l, t) for l, t in zip(labels, ftypes)]
+            for e in r.sample(extra, r.randint(0, 2)):
+                fields.insert(r.randint(0, len(fields)), (e, self.scalar()))
+            self.obs.append("%s %s" % (self.lit(tup(nm or r.choice(["A", None]), fields)), f))
+        self.obs.append("&" + f)
+        if self.want_probe():
+            bad = [(l, self.other_type(t) if i == body_i else t) for i, (l, t) in enumerate(zip(labels, ftypes))]
+            bad = [(l, INT if t == "nil" else t) for l, t in bad]
+            self.obs.append("%s %s" % (self.lit(tup(nm, bad)), f))
+            self.set_probe("partial-field-of-wrong-type")
+
+    def sc_generic(self):
+        r = self.rng
+        kind = r.choice(["id", "first", "wrap", "pair_use", "opt"])
+        f = self.fresh("g")
+        self.feat("generics")
+        a, b = self.small_type(), self.small_type()
+        if kind == "id":
+            self.steps.append("%s = #<'t>'t { $ }" % f)
+            self.obs.append(self.use(a, "%s %s" % (self.lit(a), f)) if a in (INT, BIN, STR) else "%s %s" % (self.lit(a), f))
+            self.obs.append("%s %s" % (self.lit(b), f))
+        elif kind == "first":
+            self.steps.append("%s = #<'a, 'b>['a, 'b] { %s }" % (f, r.choice(["$0", "$1", "[$1, $0]", "=[p, q] => [q, p, q]"])))
+            self.obs.append("[%s, %s] %s" % (self.lit(a), self.lit(b), f))
+            self.obs.append("[%s, %s] %s" % (self.lit(b), self.lit(a), f))
+        elif kind == "wrap":
+            self.steps.append("%s = #<'t>'t { Box[v: ~] }" % f)
+            self.obs.append("%s %s .v" % (self.lit(a), f))
+            self.obs.append("%s %s" % (self.lit(b), f))
+        elif kind == "pair_use":
+            # a generic function with a NON-generic component that it uses (F2's shape)
+            self.steps.append("%s = #<'t>['int, 't] { [%s, $1] }" % (f, self.int_op("$0")))
+            self.obs.append("[%d, %s] %s" % (r.randint(0, 9), self.lit(a), f))
+            if self.want_probe():
+                g = self.fresh("h")
+                self.steps.append("%s = #('int | 'bin) { [~, %s] %s }" % (g, self.lit(b), f))
+                self.obs.append("0x01 %s" % g)
+                self.set_probe("union-arg-to-generic-nonunion-param")
+        else:
+            self.steps.append("%s = #<'t>('t | []) { | =[] => None | Some[~] }" % f)
+            self.obs.append("%s %s" % (self.lit(a), f))
+            self.obs.append("[] %s" % f)
+            self.feat("unions")
+
+    def sc_list(self):
+        """recursive alias + tail-recursive functions over it"""
+        r = self.rng
+        if not any(a.startswith("'list<") for a in self.aliases):
+            self.aliases.append("'list<'t> = Nil | Cons['t, ^]")
+        self.feat("recursive_types", "generics", "tail_calls")
+        et = self.scalar()
+        n = r.randint(0, 4)
+
+        def mk(k):
+            return "Nil" if k == 0 else "Cons[%s, %s]" % (self.lit(et), mk(k - 1))
+        kind = r.choice(["len", "rev", "sum", "last", "tail", "mono"])
+        f = self.fresh("l")
+        if kind == "len":
+            self.steps.append("%s = #<'t>['list<'t>, 'int] { | =[Nil, n] => n | =[Cons[_, t], n] => [t, [n, 1] __integer_add__] ^ }" % f)
+            self.obs.append("[%s, 0] %s" % (mk(n), f))
+        elif kind == "rev":
+            self.steps.append("%s = #<'t>['list<'t>, 'list<'t>] { | =[Nil, acc] => acc | =[Cons[h, t], acc] => [t, Cons[h, acc]] ^ }" % f)
+            self.obs.append("[%s, Nil] %s" % (mk(n), f))
+        elif kind == "sum":
+            self.steps.append("%s = #['list<'int>, 'int] { | =[Nil, n] => n | =[Cons[h, t], n] => [t, [n, h] __integer_add__] ^ }" % f)
+            et = INT
+            self.obs.append("[%s, 0] %s" % (mk(n), f))
+            self.obs.append("&" + f)
+        elif kind == "last":
+            self.steps.append("%s = #<'t>'list<'t> { | =Cons[h, Nil] => h | =Cons[_, t] => t ^ }" % f)
+            self.obs.append("%s %s" % (mk(max(n, 1)), f))
+        elif kind == "tail":
+            # a binder taken from the recursive position
+            self.steps.append("%s = #'list<%s> { | =Cons[_, t] => t | Nil }" % (f, ty_src(et)))
+            self.obs.append("%s %s" % (mk(n), f))
+            self.feat("binder_of_recursive_field")
+        else:
+            self.steps.append("%s = #'list<%s> { | =Nil => 0 | =Cons[h, _] => %s }" % (f, ty_src(et), self.use(et, "h")))
+            self.obs.append("%s %s" % (mk(n), f))
+            self.obs.append("&" + f)
+        if self.want_probe():
+            self.obs.append("%s %s" % ("Cons[%s, %s]" % (self.lit(et), self.wrong(INT)), f) if kind in ("mono", "tail", "last")
+                            else "[Cons[%s, Zz], %s] %s" % (self.lit(et), "0" if kind != "rev" else "Nil", f))
+            self.set_probe("ill-formed-list-argument")
+
+    def sc_tail(self):
+        """tail calls: `^`, `^f`, `^~`; the argument's type is what F1 is about"""
+        r = self.rng
+        self.feat("tail_calls")
+        pt = self.scalar()
+        f = self.fresh("k")
+        self.steps.append("%s = #%s { %s }" % (f, ty_src(pt), self.use(pt, "~")))
+        g = self.fresh("k")
+        at = self.scalar()
+        kind = r.choice(["named", "named", "self", "ripple"])
+        probe = self.want_probe()
+        if kind == "named":
+            arg = self.wrong(pt) if probe else self.term(pt)
+            self.steps.append("%s = #%s { %s ^%s }" % (g, ty_src(at), arg, f))
+            if probe:
+                self.set_probe("ill-typed-tail-call-argument")
+        elif kind == "self":
+            arg = self.wrong(INT) if probe else self.int_op("~", 1).replace("multiply", "subtract").replace("add", "subtract")
+            self.steps.append("%s = #'int { | =0 => %s | =1 => %s | %s ^ }" % (g, self.lit(at), self.lit(at), arg))
+            at = INT
+            if probe:
+                self.set_probe("ill-typed-self-tail-call-argument")
+        else:
+            h = self.fresh("k")
+            self.steps.append("%s = #{ %s }" % (h, self.term(pt)))
+            self.steps.append("%s = #%s { &%s ^~ }" % (g, ty_src(at), h))
+        self.obs.append("%s %s" % (self.lit(at) if kind != "self" else str(r.randint(0, 6)), g))
+        self.obs.append("&" + g)
+
+    def sc_closure(self):
+        r = self.rng
+        self.feat("closures")
+        ct, pt = self.scalar(), self.scalar()
+        mk = self.fresh("c")
+        inner = "[%s, %s]" % (self.use(ct, "n"), self.use(pt, "~"))
+        self.steps.append("%s = #%s { n = $, #%s { %s } }" % (mk, ty_src(ct), ty_src(pt), inner))
+        c = self.fresh("c")
+        self.steps.append("%s = %s %s" % (c, self.lit(ct), mk))
+        self.obs.append("%s %s" % (self.lit(pt), c))
+        self.obs.append("&" + c)
+        self.obs.append("&" + mk)
+        if self.chance(0.4):
+            # rebinding after capture: the closure keeps the old value
+            self.steps.append("n = %s" % self.lit(self.scalar()))
+            self.obs.append("%s %s" % (self.lit(pt), c))
+            self.feat("rebinding")
+        if self.want_probe():
+            self.obs.append("%s %s" % (self.wrong(pt), c))
+            self.set_probe("ill-typed-call-argument")
+
+    def sc_tuple_ops(self):
+        """spreads, field access, pins, or-patterns, nested blocks"""
+        r = self.rng
+        t = tup(r.choice(NAMES[:6]), [(l, self.scalar()) for l in r.sample(LABELS, r.randint(1, 3))])
+        x = self.fresh("r")
+        self.steps.append("%s = %s" % (x, self.lit(t)))
+        l0, t0 = t[2][0]
+        newl = [l for l in LABELS if l not in [l for l, _ in t[2]]][0]
+        nt = self.scalar()
+        y = self.fresh("r")
+        form = r.random()
+        if form < 0.4:
+            self.steps.append("%s = %s[..., %s: %s]" % (y, x, newl, self.lit(nt)))
+            self.obs.append(self.use(nt, "%s.%s" % (y, newl)))
+        elif form < 0.7:
+            ot = self.scalar()
+            self.steps.append("%s = %s[...%s, %s: %s]" % (y, r.choice(NAMES[:6]), x, l0, self.lit(ot)))
+            self.obs.append(self.use(ot, "%s.%s" % (y, l0)))
+            self.feat("spread_override")
+        else:
+            self.steps.append("%s = %s [..., %s: %s]" % (y, x, newl, self.lit(nt)))
+            self.obs.append(self.use(t0, "%s.%s" % (y, l0)))
+        self.feat("spreads", "field_access")
+        self.obs.append(y)
+        # pins / or-patterns / nested blocks on an int
+        v = self.fresh("i")
+        self.steps.append("%s = %d" % (v, r.randint(0, 5)))
+        self.obs.append("%d { | =&%s => 1 | =(%d | %d) => { %s { =0 => 2 | 3 } } | 4 }" % (r.randint(0, 5), v, r.randint(0, 5), r.randint(0, 5), v))
+        self.feat("pins", "or_patterns", "nested_blocks")
+
+    def sc_nil_flow(self):
+        """values that may be nil: bare binders (F27), rebinding (F53), match provenance (F54)"""
+        r = self.rng
+        kind = r.choice(["maybe_bind", "maybe_bind", "rebinding", "provenance", "opt_fn"])
+        self.feat("nil_flow")
+        if kind == "maybe_bind":
+            a = self.fresh("m")
+            t = self.scalar()
+            sel = r.randint(0, 2)
+            self.steps.append("%s = %d { | =1 => [] | %s }" % (a, sel, self.lit(t)))
+            # a sound compiler types `a` as T | []: using it at T must be rejected, testing it is fine
+            how = r.random()
+            if how < 0.4:
+                self.obs.append("%s { | =[] => 0 | 1 }" % a)
+            elif how < 0.7:
+                self.obs.append("[%s]" % a)
+            else:
+                self.obs.append(self.use(t, a))
+                self.set_probe("maybe-nil-used-at-non-nil-type")
+        elif kind == "rebinding":
+            d = self.fresh("d")
+            t1 = tup(r.choice(NAMES[:6]), [("z", INT)])
+            t2 = self.scalar()
+            self.steps.append("%s = %s" % (d, self.lit(t1)))
+            if self.chance(0.5):
+                self.obs.append("%s.z" % d)
+            self.steps.append("%s = %s" % (d, self.lit(t2)))
+            self.obs.append(self.use(t2, d) if self.chance(0.6) else d)
+            self.feat("rebinding")
+            if self.want_probe():
+                self.obs.append("%s.z" % d)
+                self.set_probe("field-of-rebound-scalar")
+        elif kind == "provenance":
+            n = self.fresh("n")
+            self.steps.append("%s = %d" % (n, r.randint(0, 9)))
+            self.steps.append("%s =%s, =%s, %s =%s" % (n, self.fresh("v"), self.fresh("b"), n, self.fresh("v")))
+            self.feat("match_provenance")
+        else:
+            f = self.fresh("o")
+            t = self.scalar()
+            self.steps.append("%s = #'int { | =0 => [] | %s }" % (f, self.lit(t)))
+            x = self.fresh("m")
+            self.steps.append("%s %s =%s" % (r.choice(["0", "1"]), f, x))
+            self.obs.append("%s { =[] => 0 | 1 }" % x if self.chance(0.6) else "[%s]" % x)
+            self.obs.append("&" + f)
+
+    def sc_process(self):
+        r = self.rng
+        kind = r.choice(["await", "recv", "recv_union", "self_send", "capture"])
+        self.feat("spawn")
+        t = self.scalar()
+        p = self.fresh("pr")
+        probe = self.want_probe()
+        if kind == "await":
+            arg = self.wrong(t) if probe else self.lit(t)
+            self.steps.append("%s = %s @%s { %s }" % (p, arg, ty_src(t), self.use(t, "~")))
+            self.obs.append("!%s" % p)
+            self.feat("await")
+            if probe:
+                self.set_probe("ill-typed-spawn-argument")
+        elif kind == "recv":
+            self.steps.append("%s = @{ !%s %s }" % (p, ty_src(t) if t != STR else "#Str['bin]", "{ %s }" % self.use(t, "~")))
+            msg = self.wrong(t) if probe else self.lit(t)
+            self.steps.append("%s %s" % (msg, p))
+            self.obs.append("!%s" % p)
+            self.feat("send", "select")
+            if probe:
+                self.set_probe("ill-typed-message")
+        elif kind == "recv_union":
+            self.steps.append("%s = @{ !#('int | 'bin) { | ='int => %s | %s } }" % (p, self.int_op("~"), "~ __binary_length__"))
+            self.steps.append("%s %s" % (self.wrong(INT) if probe else r.choice(["0x0102", "7"]), p))
+            self.obs.append("!%s" % p)
+            self.feat("send", "select", "unions", "type_tests")
+            if probe:
+                self.set_probe("ill-typed-message")
+        elif kind == "self_send":
+            self.steps.append("%s = @{ %s ., !%s %s }" % (p, self.lit(t), ty_src(t) if t != STR else "#Str['bin]", "{ %s }" % self.use(t, "~")))
+            self.obs.append("!%s" % p)
+            self.feat("send", "select", "self")
+        else:
+            c = self.fresh("cv")
+            self.steps.append("%s = %s" % (c, self.lit(t)))
+            self.steps.append("%s = @{ %s }" % (p, self.use(t, c)))
+            self.obs.append("!%s" % p)
+            self.feat("await", "closures")
+
+    def sc_core(self):
+        """a plain core-language expression of a random type (c02gen): blocks, matches mid-chain,
+        strings, spreads, closures over rebinding"""
+        t = self.small_type()
+        self.obs.append(self.term(t))
+        self.feat("core_expression")
+
+    def sc_annotated(self):
+        """declared result types `#P -> R`"""
+        r = self.rng
+        p, res = self.scalar(), self.small_type()
+        f = self.fresh("a")
+        probe = self.want_probe()
+        body = self.wrong(res) if probe else self.term(res)
+        self.steps.append("%s = #%s -> %s { %s }" % (f, c02gen.param_src(p), ty_src(res), body))
+        self.obs.append("%s %s" % (self.lit(p), f))
+        self.obs.append("&" + f)
+        self.feat("declared_result_type")
+        if probe:
+            self.set_probe("body-of-wrong-declared-result-type")
+
+    # ------------------------------------------------------------------ probes
+    def want_probe(self):
+        return self.probe is None and self.probe_budget and self.chance(0.5)
+
+    def set_probe(self, what):
+        self.probe = what
+        self.stats["probe:" + what] = self.stats.get("probe:" + what, 0) + 1
+
+    # ------------------------------------------------------------------ program
+    def program(self):
+        r = self.rng
+        self.probe_budget = r.random() < 0.35
+        scen = [(self.sc_union_dispatch, 4), (self.sc_scalar_tests, 3), (self.sc_partial, 3), (self.sc_generic, 4),
+                (self.sc_list, 4), (self.sc_tail, 3), (self.sc_closure, 3), (self.sc_tuple_ops, 2), (self.sc_nil_flow, 3),
+                (self.sc_process, 2), (self.sc_core, 2), (self.sc_annotated, 2)]
+        k = r.choice([1, 1, 2, 2, 3])
+        total = sum(w for _, w in scen)
+        has_proc = False
+        for _ in range(k):
+            x = r.random() * total
+            for fn, w in scen:
+                x -= w
+                if x <= 0:
+                    break
+            if fn == self.sc_process:
+                if has_proc:
+                    continue
+                has_proc = True
+            fn()
+        if not self.obs:
+            self.obs.append("Ok")
+        r.shuffle(self.obs)
+        body = self.steps + ["[" + ", ".join(self.obs) + "]"]
+        if self.chance(0.15):
+            # the whole observation inside a nested block
+            body = self.steps + ["{ [" + ", ".join(self.obs) + "] }"]
+            self.feat("nested_blocks")
+        return "\n".join(self.aliases) + ("\n" if self.aliases else "") + ",\n".join(body)
+
+
 def generate(rng, stats=None):
-    return dict(src="[%d, 2] __integer_add__" % rng.randint(0, 9), feats=["builtin"], probe=None)
+    stats = stats if stats is not None else {}
+    for _ in range(20):
+        g = G(rng, stats)
+        try:
+            src = g.program()
+            return dict(src=src, feats=sorted(g.feats), probe=g.probe)
+        except (IndexError, ValueError, KeyError, TypeError):
+            continue
+    return dict(src="Ok", feats=[], probe=None)
